@@ -67,7 +67,7 @@ type Gen struct {
 
 	vfs        *simVFS
 	pendingDel map[*sched.Task][]string
-	flushing   bool
+	flushing   map[*sched.Task]bool
 }
 
 // flushDeletes applies the Delete calls a task has issued since its last other
@@ -79,7 +79,7 @@ type Gen struct {
 // the run of calls changes nothing it can observe).
 func (g *Gen) flushDeletes() {
 	t := g.sim.Current()
-	if t == nil || g.flushing {
+	if t == nil || g.flushing[t] {
 		return
 	}
 	names := g.pendingDel[t]
@@ -88,8 +88,12 @@ func (g *Gen) flushDeletes() {
 	}
 	delete(g.pendingDel, t)
 	sort.Strings(names)
-	g.flushing = true
-	defer func() { g.flushing = false }()
+	if g.flushing == nil {
+		g.flushing = map[*sched.Task]bool{}
+	}
+	// recursion guard per task: deleteNow re-enters the seam path
+	g.flushing[t] = true
+	defer delete(g.flushing, t)
 	for _, n := range names {
 		if err := g.vfs.deleteNow(n); err != nil {
 			g.ex.probes.Add("delete_failed", 1)
